@@ -55,6 +55,12 @@ def templates(C):
     ciph("aes-ctr12", C["IMB_CIPHER_CNTR"], [16, 24, 32], 12)
     ciph("aes-ecb", C["IMB_CIPHER_ECB"], [16, 24, 32], 0, blk=16)
     ciph("aes-cfb", C["IMB_CIPHER_CFB"], [16, 24, 32], 16, blk=16)
+    # encrypt-only twins of the modes whose ENCRYPT direction is the multi-buffer one (decrypt jobs complete at once and
+    # would halve the lane occupancy of a mixed batch)
+    ciph("aes-cfb-enc", C["IMB_CIPHER_CFB"], [16, 24, 32], 16, blk=16, dirs=(1,))
+    ciph("aes-cbc-enc", C["IMB_CIPHER_CBC"], [16, 24, 32], 16, blk=16, dirs=(1,))
+    ciph("docsis-aes-enc", C["IMB_CIPHER_DOCSIS_SEC_BPI"], [16, 32], 16, dirs=(1,))
+    ciph("aes-cbcs-enc", C["IMB_CIPHER_CBCS_1_9"], [16], 16, blk=16, minlen=16, dirs=(1,))
     ciph("aes-ctr-bits", C["IMB_CIPHER_CNTR_BITLEN"], [16, 24, 32], 16, bits=True)
     ciph("docsis-aes", C["IMB_CIPHER_DOCSIS_SEC_BPI"], [16, 32], 16)
     ciph("aes-cbcs", C["IMB_CIPHER_CBCS_1_9"], [16], 16, blk=16, minlen=16)
